@@ -68,7 +68,7 @@ pub fn rec_parse(s: &str) -> Canon {
     }
 }
 
-fn build(c: &Canon) -> RecordBuf {
+pub fn build(c: &Canon) -> RecordBuf {
     let mut b = RecordBuf::builder()
         .set_reference_sequence_name(c.chrom.clone())
         .set_ids(c.ids.iter().cloned().collect())
@@ -148,7 +148,7 @@ fn lazy_text(header: &vcf::Header, text: &[u8]) -> R<(vcf::Record, Canon)> {
 }
 
 /// the record the readers must return for a valid written record
-fn expected(c: &Canon, ver: &str) -> Canon {
+pub fn expected(c: &Canon, ver: &str) -> Canon {
     let mut x = expected_after_roundtrip(c, ver);
     x.refb = c
         .refb
@@ -273,20 +273,20 @@ pub fn run_ltxt(c: &Case) -> Obs {
 // -------------------------------------------------------------------------------------------
 // generators
 
-const CHROMS_OK: &[&str] = &["sq0", "chr1", "1", "X", "<CTG1>", "HLA-A*01:01", "chrUn_KI270302v1", "a|b;c=d", "MT", "<a>", "c.1"];
+pub const CHROMS_OK: &[&str] = &["sq0", "chr1", "1", "X", "<CTG1>", "HLA-A*01:01", "chrUn_KI270302v1", "a|b;c=d", "MT", "<a>", "c.1"];
 const CHROMS_BAD: &[&str] = &["", "*a", "=a", "<>", "<", "a b", "a,b", "a\tb", "<a", "a>", "<<a>>", "a<b", "{x}", "\u{e9}"];
-const IDS_OK: &[&str] = &["rs123", "rs6054257", "id.2", "a=b", "x,y", "esv1:2", "\u{e9}1", "COSM%1", "\"q\"", "..", ".a", "PASS"];
+pub const IDS_OK: &[&str] = &["rs123", "rs6054257", "id.2", "a=b", "x,y", "esv1:2", "\u{e9}1", "COSM%1", "\"q\"", "..", ".a", "PASS"];
 const IDS_EDGE: &[&str] = &["", ".", "a;b", "a b", "a\tb", "a\rb", "\r", "x\u{b}"];
-const ALTS_OK: &[&str] = &[
+pub const ALTS_OK: &[&str] = &[
     "A", "C", "GT", "ACGTN", "a", "<DEL>", "<DUP:TANDEM>", "<INS:ME:ALU>", "<*>", "*", "G]17:198982]", "]13:123456]T", "C[2:321682[",
     "[17:198983[A", ".A", "G.", "<NON_REF>", "<CN0>", "G]<ctg1>:7]", "a;b", "a=b",
 ];
 const ALTS_EDGE: &[&str] = &["", ".", "A,C", "A C", "A\tC", "\r"];
-const FILTERS_OK: &[&str] = &["q10", "s50", "LowQual", "PASS2", "f.1", "a=b", "x,y", "PASS", "pass"];
+pub const FILTERS_OK: &[&str] = &["q10", "s50", "LowQual", "PASS2", "f.1", "a=b", "x,y", "PASS", "pass"];
 const FILTERS_EDGE: &[&str] = &["", ".", "a;b", "a b", "q\n"];
 const REFS_EDGE: &[&str] = &["", "R", "acgtnRYKMSWBDHV", "rykmswbdhv", "X", "A.", "A C", "U", "*"];
 
-fn distinct(rng: &mut Rng, n: usize, pool: &[&str]) -> Vec<String> {
+pub fn distinct(rng: &mut Rng, n: usize, pool: &[&str]) -> Vec<String> {
     let mut out: Vec<String> = vec![];
     let mut tries = 0;
     while out.len() < n && tries < 50 {
@@ -303,7 +303,7 @@ fn defs_str(d: &[(String, String, String)]) -> String {
     if d.is_empty() { "-".into() } else { d.iter().map(|(k, n, t)| format!("{k}/{n}/{t}")).collect::<Vec<_>>().join(",") }
 }
 
-fn all_floats(c: &Canon) -> String {
+pub fn all_floats(c: &Canon) -> String {
     let mut vs: Vec<OV> = vec![];
     if let Some(q) = c.qual {
         vs.push(Some(V::Float(q)));
@@ -466,7 +466,7 @@ pub fn gen_line(rng: &mut Rng, ver: &str, mode: u64, w: &mut CaseWriter) {
     );
 }
 
-const LTXT_LINES: &[&str] = &[
+pub const LTXT_LINES: &[&str] = &[
     "sq0\t1\t.\tA\t.\t.\t.\t.\n",
     "sq0\t1\t.\tA\t.\t.\t.\t.\r\n",
     "sq0\t1\t.\tA\t.\t.\t.\t.",
@@ -826,7 +826,7 @@ pub fn run_lzb(c: &Case) -> Obs {
     Obs::ok(obs, true)
 }
 
-fn qual_ftab_all(text: &[u8]) -> String {
+pub fn qual_ftab_all(text: &[u8]) -> String {
     let mut v: Vec<String> = vec![];
     for raw in text.split(|&b| b == b'\n') {
         for line in [raw, if raw.ends_with(b"\r") { &raw[..raw.len() - 1] } else { raw }] {
